@@ -166,6 +166,8 @@ pub trait Check {
     fn budget_s(&self, tier: Tier) -> u64 { tier.pick(90, 1500) }
     /// short stable name of the sub-workload a case index belongs to (used in abort signatures)
     fn case_label(&self, _tier: Tier, _idx: u64) -> String { String::new() }
+    /// case index ranges (from, count) to repeat under the Miri interpreter (None = no sanitizer stage in this tier)
+    fn miri_plan(&self, _tier: Tier) -> Option<Vec<(u64, u64)>> { None }
 }
 
 // ------------------------------------------------------------------------------------------------
@@ -501,6 +503,29 @@ pub fn supervisor_main(check: &mut dyn Check, tier: Tier, seed: u64) -> RunResul
         read_hashes(&dir.join(format!("shard-{}.hashes", sh.id)), &mut distinct);
     }
     merged.merge(sup_stats);
+    // sanitizer stage (Miri) over a sub-range of the same cases
+    if let Some(plan) = check.miri_plan(tier) {
+        if std::env::var("VERIF_NO_MIRI").is_err() {
+            let m = miri_stage(id, tier, seed, &plan);
+            *merged.counters.entry("miri_cases".into()).or_default() += m.cases;
+            *merged.counters.entry("miri_evaluations".into()).or_default() += m.evaluations;
+            *merged.counters.entry("miri_shards".into()).or_default() += m.shards as u64;
+            *merged.counters.entry("miri_wall_s".into()).or_default() += m.wall_s as u64;
+            for u in &m.ub_reports {
+                let sig = format!("{id} miri {}", u.split(": ").skip(1).collect::<Vec<_>>().join(": ").chars().take(140).collect::<String>());
+                *merged.sig_counts.entry(sig.clone()).or_default() += 1;
+                merged.violations.push(Violation { sig, idx: 0, detail: json!({"miri_report": u}) });
+            }
+            for s in &m.signatures {
+                // a violation seen only under the interpreter (e.g. a debug assertion): same signature space as the native run
+                *merged.sig_counts.entry(s.clone()).or_default() += 1;
+                merged.violations.push(Violation { sig: s.clone(), idx: 0, detail: json!({"seen_under": "miri"}) });
+            }
+            for i in m.inconclusive {
+                *merged.inconclusive.entry(format!("miri: {}", i.chars().take(160).collect::<String>())).or_default() += 1;
+            }
+        }
+    }
     let wall = t0.elapsed().as_secs_f64();
     finish_run(check, tier, seed, merged, distinct.len() as u64, budget_cut, wall, total)
 }
@@ -670,6 +695,132 @@ pub fn finish_run(check: &mut dyn Check, tier: Tier, seed: u64, merged: Stats, d
         0
     };
     RunResult { exit }
+}
+
+/// Run a range of cases in-process and print one JSON summary line (this is what runs under Miri).
+pub fn batch_main(check: &mut dyn Check, tier: Tier, seed: u64, from: u64, count: u64) -> i32 {
+    super::monitor::install_panic_hook();
+    // every GDError captures a backtrace when these are set: ruinous under the interpreter
+    std::env::remove_var("RUST_BACKTRACE");
+    std::env::remove_var("RUST_LIB_BACKTRACE");
+    let mut stats = Stats::default();
+    let total = check.total_cases(tier);
+    for idx in from .. (from + count).min(total) {
+        let mut cx = Cx { rng: case_rng(seed, check.id(), idx), tier, seed, idx, replaying: false, stats: &mut stats };
+        check.run_case(&mut cx);
+    }
+    let sigs: Vec<&String> = stats.sig_counts.keys().collect();
+    println!("BATCH-SUMMARY {}", json!({"evaluations": stats.evaluations, "nontrivial": stats.nontrivial, "signatures": sigs, "first": stats.violations.first().map(|v| &v.detail)}));
+    if stats.sig_counts.is_empty() { 0 } else { 1 }
+}
+
+#[derive(Debug, Default)]
+pub struct MiriOutcome {
+    pub ran: bool,
+    pub shards: usize,
+    pub cases: u64,
+    pub evaluations: u64,
+    pub ub_reports: Vec<String>,
+    pub signatures: Vec<String>,
+    pub inconclusive: Vec<String>,
+    pub wall_s: f64,
+}
+
+/// Repeat case ranges under `cargo +nightly miri run`, one process per range, up to 16 at a time.
+pub fn miri_stage(id: &str, tier: Tier, seed: u64, plan: &[(u64, u64)]) -> MiriOutcome {
+    let t0 = Instant::now();
+    let mut out = MiriOutcome { ran: true, shards: plan.len(), ..Default::default() };
+    let harness = verif_root().join("harness");
+    let flags = "-Zmiri-disable-isolation -Zmiri-ignore-leaks";
+    // build once (so that the shards do not race on the target directory)
+    let build = Command::new("cargo")
+        .current_dir(&harness)
+        .args(["+nightly", "miri", "run", "--offline", "--target-dir", "target/miri", "--", "list"])
+        .env("MIRIFLAGS", flags)
+        .env("RUSTFLAGS", "--cfg gamedig_verif")
+        .env("CARGO_NET_OFFLINE", "true")
+        .stdin(Stdio::null())
+        .output();
+    match build {
+        Ok(o) if o.status.success() => {}
+        Ok(o) => {
+            out.inconclusive.push(format!("miri build/run failed: {}", String::from_utf8_lossy(&o.stderr).lines().filter(|l| l.contains("error")).take(3).collect::<Vec<_>>().join(" | ")));
+            out.wall_s = t0.elapsed().as_secs_f64();
+            return out;
+        }
+        Err(e) => {
+            out.inconclusive.push(format!("cargo miri not runnable: {e}"));
+            return out;
+        }
+    }
+    let mut pending: Vec<(u64, u64)> = plan.to_vec();
+    pending.reverse();
+    let mut running: Vec<((u64, u64), Child, Instant)> = Vec::new();
+    let limit = Duration::from_secs(std::env::var("VERIF_MIRI_SHARD_S").ok().and_then(|s| s.parse().ok()).unwrap_or(1500));
+    while !pending.is_empty() || !running.is_empty() {
+        while running.len() < 16 && !pending.is_empty() {
+            let (from, count) = pending.pop().unwrap();
+            let child = Command::new("cargo")
+                .current_dir(&harness)
+                .args(["+nightly", "miri", "run", "--offline", "--target-dir", "target/miri", "--", "miri-batch", id, "--tier", tier.name(), "--seed", &seed.to_string(), "--from", &from.to_string(), "--count", &count.to_string()])
+                .env("MIRIFLAGS", flags)
+                .env("RUSTFLAGS", "--cfg gamedig_verif")
+                .env("CARGO_NET_OFFLINE", "true")
+                .env_remove("RUST_BACKTRACE")
+                .env_remove("RUST_LIB_BACKTRACE")
+                .stdin(Stdio::null())
+                .stdout(Stdio::piped())
+                .stderr(Stdio::piped())
+                .spawn();
+            match child {
+                Ok(c) => running.push(((from, count), c, Instant::now())),
+                Err(e) => out.inconclusive.push(format!("spawn: {e}")),
+            }
+        }
+        let mut i = 0;
+        while i < running.len() {
+            let done = matches!(running[i].1.try_wait(), Ok(Some(_)));
+            let late = running[i].2.elapsed() > limit;
+            if done || late {
+                let ((from, count), mut child, _) = running.remove(i);
+                if late && !done {
+                    let _ = child.kill();
+                    out.inconclusive.push(format!("miri shard {from}+{count} cut after {} s", limit.as_secs()));
+                    let _ = child.wait();
+                    continue;
+                }
+                let o = child.wait_with_output();
+                if let Ok(o) = o {
+                    let so = String::from_utf8_lossy(&o.stdout).to_string();
+                    let se = String::from_utf8_lossy(&o.stderr).to_string();
+                    if se.contains("Undefined Behavior") || se.contains("error: unsupported operation") || se.contains("error: memory leaked") {
+                        let first = se.lines().find(|l| l.starts_with("error")).unwrap_or("error").to_string();
+                        out.ub_reports.push(format!("cases {from}..{}: {first}", from + count));
+                    }
+                    if let Some(l) = so.lines().find(|l| l.starts_with("BATCH-SUMMARY ")) {
+                        if let Ok(v) = serde_json::from_str::<Value>(&l["BATCH-SUMMARY ".len() ..]) {
+                            out.cases += count;
+                            out.evaluations += v["evaluations"].as_u64().unwrap_or(0);
+                            for s in v["signatures"].as_array().cloned().unwrap_or_default() {
+                                if let Some(s) = s.as_str() {
+                                    if !out.signatures.contains(&s.to_string()) {
+                                        out.signatures.push(s.to_string());
+                                    }
+                                }
+                            }
+                        }
+                    } else if out.ub_reports.is_empty() {
+                        out.inconclusive.push(format!("miri shard {from}+{count}: no summary (exit {:?}): {}", o.status.code(), se.lines().rev().take(2).collect::<Vec<_>>().join(" | ")));
+                    }
+                }
+            } else {
+                i += 1;
+            }
+        }
+        std::thread::sleep(Duration::from_millis(50));
+    }
+    out.wall_s = t0.elapsed().as_secs_f64();
+    out
 }
 
 /// Run one case in-process and print what it reports (used by replay and by the hang re-check).
